@@ -561,16 +561,21 @@ var AncestorLoop = errors.New("ancestor loop detected")
 
 // DoAncestors calls the given function on this location and all of its ancestors in depth-first order.
 func (loc *Location) DoAncestors(ctx *Context, fn func(*Location) error) error {
-	return loc.doAncestors(ctx, fn, make(map[string]bool))
+	return loc.doAncestors(ctx, fn, make(map[string]bool), make(map[string]bool))
 }
 
 // doAncestors does the work for DoAncestors.  The given path has the
 // names of the locations we are currently in the middle of, which is
 // what we need to notice a parent chain that loops back (however
-// indirectly) instead of recursing forever.
-func (loc *Location) doAncestors(ctx *Context, fn func(*Location) error, path map[string]bool) error {
+// indirectly) instead of recursing forever.  The given done has the
+// names of the locations we are through with: an ancestor that can be
+// reached over more than one parent is still only one ancestor.
+func (loc *Location) doAncestors(ctx *Context, fn func(*Location) error, path map[string]bool, done map[string]bool) error {
 	if path[loc.Name] {
 		return AncestorLoop
+	}
+	if done[loc.Name] {
+		return nil
 	}
 	path[loc.Name] = true
 	defer delete(path, loc.Name)
@@ -605,12 +610,13 @@ func (loc *Location) doAncestors(ctx *Context, fn func(*Location) error, path ma
 			if err != nil {
 				return err
 			}
-			if err = p.doAncestors(ctx, fn, path); err != nil {
+			if err = p.doAncestors(ctx, fn, path, done); err != nil {
 				return err
 			}
 		}
 	}
 
+	done[loc.Name] = true
 	return fn(loc)
 }
 
